@@ -1,4 +1,5 @@
 import PsModel.Gen.KernelTbl
+import PsModel.Model.C19
 /-!
 # C19 model (d) – reply correlation under interleaved shell connections
 
@@ -39,8 +40,39 @@ def step (explicitParent : Bool) (s : SchedState) (i : Nat) : SchedState :=
 
 def run (explicitParent : Bool) (s : SchedState) (sched : List Nat) : SchedState := sched.foldl (step explicitParent) s
 
+/-! ## several tasks sending on one socket
+
+A write is atomic with respect to the event loop; between two writes (`await … drain()`) other tasks run.
+`oneWrite = true`: `send_multipart` builds the whole message and writes it once (the code as it is,
+`Gen.SEND_MULTIPART_ONE_WRITE`); `false`: one write per frame. -/
+
+def frameWrites : List Bytes → List Bytes
+  | [] => []
+  | [p] => [encFrame true p]
+  | p :: q :: rest => encFrame false p :: frameWrites (q :: rest)
+
+def senderWrites (oneWrite : Bool) (ps : List Bytes) : List Bytes :=
+  if oneWrite then [encodeMultipart ps] else frameWrites ps
+
+/-- the bytes on the wire when the scheduler picks, step by step, which sender performs its next write -/
+def wire (pending : List (List Bytes)) : List Nat → Bytes
+  | [] => []
+  | i :: sched =>
+    match pending[i]? with
+    | some (w :: ws) => w ++ wire (pending.set i ws) sched
+    | _ => wire pending sched
+
+/-- read `n` messages off a stream -/
+def recvN : Nat → List Bytes → Except RecvErr (List (List Bytes) × Bytes)
+  | 0, cs => .ok ([], cs.flatten)
+  | n + 1, cs =>
+    match recvMultipart cs with
+    | .ok (ps, cs1) => (match recvN n cs1 with | .ok (ms, r) => .ok (ps :: ms, r) | .error e => .error e)
+    | .error e => .error e
+
 namespace Current
 def explicitParent : Bool := Gen.SHELL_SENDS_EXPLICIT_PARENT
+def oneWrite : Bool := Gen.SEND_MULTIPART_ONE_WRITE
 end Current
 
 end PsModel.C19
